@@ -105,13 +105,13 @@ def from_lin(l: Lin) -> Term:
     return acc
 
 
-def offset_canon(t, B: Term, is_offset, used=None):
+def offset_canon(t, B: Term, is_offset, used=None, plain_view=False):
     """Rewrite offset arithmetic on buffer B into operations on the view B[s:] (s: a term satisfying is_offset, 0 <= s <= len(B)
     is the caller's obligation):   B[s+a:s+b] -> B[s:][a:b]     B[s+a] -> B[s:][a]     len(B) - s -> len(B[s:])
     `used` (a list) receives one entry per rewrite."""
     if not isinstance(t, tuple):
         return t
-    t = tuple(offset_canon(x, B, is_offset, used) for x in t)
+    t = tuple(offset_canon(x, B, is_offset, used, plain_view) for x in t)
     if not t or not isinstance(t[0], str):
         return t
 
@@ -132,7 +132,7 @@ def offset_canon(t, B: Term, is_offset, used=None):
             lo_t = from_lin(lo[1])
             hi_t = from_lin(hi[1]) if hi is not None else None
             if lo_t is not None and (hi is None or hi_t is not None):
-                view = ("slice", t[1], s, None, None)
+                view = ("slice", B if plain_view else t[1], s, None, None)
                 if lo_t == ("const", 0):
                     lo_t = None
                 out = view if (lo_t is None and hi_t is None) else ("slice", view, lo_t, hi_t, None)
@@ -146,7 +146,7 @@ def offset_canon(t, B: Term, is_offset, used=None):
             if it is not None:
                 if used is not None:
                     used.append(t)
-                return ("sub", ("slice", t[1], ix[0], None, None), it)
+                return ("sub", ("slice", B if plain_view else t[1], ix[0], None, None), it)
     if t[0] == "bin" and t[1] in ("-", "+"):
         l = lin(t)
         lens = [k for k, v in l.t.items() if call_is(k, "len") and strip(k[2][0]) == B]
@@ -154,7 +154,7 @@ def offset_canon(t, B: Term, is_offset, used=None):
             for sym, v in list(l.t.items()):
                 if is_offset(sym) and v == -l.t[k]:
                     c = l.t[k]
-                    l2 = l - Lin(0, {k: c, sym: -c}) + Lin(0, {("call", ("ext", "len"), (("slice", k[2][0], sym, None, None),), ()): c})
+                    l2 = l - Lin(0, {k: c, sym: -c}) + Lin(0, {("call", ("ext", "len"), (("slice", B if plain_view else k[2][0], sym, None, None),), ()): c})
                     out = from_lin(l2)
                     if out is not None:
                         if used is not None:
